@@ -31,9 +31,13 @@ class Diverged(BaseException):
     pass
 
 
+CALL_BUDGET = 560  # run_to_completion calls per process_events call (runtime.max_events caps them at 500)
+
+
 class _Steps:
     n = 0
     worst = 0
+    calls = 0
 
 
 _orig_candidates = sm._get_all_head_candidates
@@ -54,6 +58,9 @@ _orig_rtc = sm.run_to_completion
 
 def _rtc(state, external_event):
     _Steps.n = 0
+    _Steps.calls += 1
+    if _Steps.calls > CALL_BUDGET:
+        raise Diverged("more than %d run_to_completion calls while processing one input event" % CALL_BUDGET)
     return _orig_rtc(state, external_event)
 
 
@@ -103,6 +110,10 @@ FAULTS = {
     "index": ("  match Ev() as $e\n  $l = [1, 2]\n  $z = $l[$e.a]", lambda a: (not _is_int(a)) or a >= 2),
     "cmptype": ("  match Ev(a=less_than(2))", lambda a: not _is_int(a)),  # comparing a string payload with a number
     "control": ("  match Ev(a=1)", lambda a: False),
+    # errors that are not Colang*Error: an event name an action / a flow reference does not have
+    "badactionevent": ('  match Ev() as $e\n  send UtteranceBotAction(script="x").Done()', lambda a: True),
+    "badflowevent": ("  match Ev() as $e\n  start samewitness as $ref\n  send $ref.Done()", lambda a: True),
+    "badactionparam": ("  match Ev() as $e\n  start UtteranceBotAction(script=$e.a)", lambda a: _is_int(a)),  # script must be a string
 }
 # does a fault-free Ev advance `bad`? (only for patterns that filter)
 ADVANCES = {
@@ -136,6 +147,24 @@ flow holder
 flow main
   activate witness
   start holder
+  match Never()
+''',
+    # a flow that reacts to the program's own output (its loop contains a wait): process_events must still return (runtime.max_events)
+    "self_feeding": '''
+flow echo
+  match StartUtteranceBotAction()
+  start UtteranceBotAction(script="again")
+
+@loop("w")
+flow witness
+  match Ev()
+  send Seen()
+
+flow main
+  activate witness
+  activate echo
+  match Ev()
+  start UtteranceBotAction(script="first")
   match Never()
 ''',
     # mutually recursive flows, each with a waiting statement
@@ -197,6 +226,7 @@ def _process(state, events):
 
 
 def _process_inner(state, events):
+    _Steps.calls = 0
     loop = VLoop()
     res = {}
 
@@ -324,12 +354,12 @@ def terminates(k: int, s0: int, s1: int, a0: int, a1: int) -> bool:
             evs.append({"type": "Init", "k": k})
         for (s, a) in [(s0, a0), (s1, a1)]:
             kk = conc(s, 0, 3)
-            evs.append({"type": "Ev", "a": a} if kk == 0 else ({"type": "Tick"} if kk == 1 else ({"type": "Other"} if kk == 2 else {"type": "Irrelevant"})))
+            evs.append({"type": "Ev", "a": (0 if KIND == "self_feeding" else a)} if kk == 0 else ({"type": "Tick"} if kk == 1 else ({"type": "Other"} if kk == 2 else {"type": "Irrelevant"})))
         for ev in evs:
             out, st = _process(st, [ev])
             names = _names(out)
             trace.append({"event": ev, "out": names, "steps": _Steps.worst})
-            if names.count("Seen") != (1 if ev["type"] == "Ev" else 0):
+            if names.count("Seen") != (1 if ev["type"] == "Ev" else 0) and KIND != "self_feeding":
                 why = "witness saw %d x %s" % (names.count("Seen"), ev["type"])
                 break
     except Diverged as e:
@@ -362,10 +392,10 @@ _KINDS = sorted(FAULTS)
 SPEC = {
     "property": "C10",
     "functions": FUNCTIONS,
-    "bounds": "8 kinds of flow (type error in an assignment, comparison pattern that cannot be built, comparison against a payload of the wrong type, invalid regex pattern, priority out of range, division by zero "
+    "bounds": "11 kinds of flow (unknown event of an action / of a flow reference, action parameter of the wrong type, type error in an assignment, comparison pattern that cannot be built, comparison against a payload of the wrong type, invalid regex pattern, priority out of range, division by zero "
               "and index error depending on the payload, and a fault-free control) x {started once, activated}; next to an unrelated flow in another interaction loop, one in the same "
               "loop and a ColangError observer; histories of L=2 (quick) / 3 (thorough) events over {Ev(a=int 0..3 symbolic), Ev(a='q'), Other, Irrelevant}; "
-              "termination family: activated flow that aborts / raises / returns before any waiting statement depending on a symbolic payload, mutual recursion with waits; "
+              "termination family: activated flow that aborts / raises / returns before any waiting statement depending on a symbolic payload, mutual recursion with waits, a flow reacting to the program's own output (process_events must return within runtime.max_events); "
               "step budget %d internal events per run_to_completion" % BUDGET,
     "outside": "programs with wait-free loops (excluded by the property); the step bound is an empirical constant (divergence detection, not a complexity proof); faults inside library flows",
     "assumptions": ["VLoop: virtual-time asyncio loop drives the real process_events coroutine", "tie-breaks fixed to the first candidate (no ties arise in these programs)",
@@ -378,7 +408,7 @@ SPEC = {
                    {"slice": {"kind": "badregex", "act": 1, "L": 3}, "args": dict(s0=1, s1=0, s2=2, a0=0, a1=3, a2=0)},
                    {"slice": {"kind": "typeerr", "act": 1, "L": 3}, "args": dict(s0=0, s1=1, s2=0, a0=2, a1=0, a2=1)}]},
         {"fn": "isolated", "tiers": ("thorough",), "slices": [{"kind": k, "act": a, "L": 3} for k in _KINDS for a in (0, 1)], "tcond": 3000, "tpath": 60, "bound": "L=3"},
-        {"fn": "terminates", "slices": [{"kind": "act_cond"}, {"kind": "recursion"}], "tcond": 900, "tpath": 60, "bound": "k in 0..4, two further events",
+        {"fn": "terminates", "slices": [{"kind": "act_cond"}, {"kind": "recursion"}, {"kind": "self_feeding"}], "tcond": 900, "tpath": 60, "bound": "k in 0..4, two further events",
          "smoke": [{"slice": {"kind": "act_cond"}, "args": dict(k=1, s0=0, s1=1, a0=0, a1=0)}, {"slice": {"kind": "act_cond"}, "args": dict(k=2, s0=0, s1=1, a0=0, a1=0)},
                    {"slice": {"kind": "act_cond"}, "args": dict(k=3, s0=1, s1=0, a0=0, a1=0)}]},
         {"fn": "fault_twin", "expect": "counterexample", "slices": [{"kind": "divzero", "act": 0, "L": 2}, {"kind": "typeerr", "act": 1, "L": 2}], "tcond": 300, "tpath": 60, "bound": "twin"},
